@@ -125,13 +125,13 @@ func zzC09PrunedIDRejected(cmd int) {
 	case 0:
 		err = applySetUpdates(dir, opts, x, zzSetRequest(), opts.AgentID, true)
 	case 1:
-		err = writeLinkEvent(dir, opts, "link", x, other)
+		err = RunSequence([]string{other, x}, opts) // x depends on other (public entry: internal helpers may be renamed)
 	case 2:
-		err = writeLinkEvent(dir, opts, "link", other, x)
+		err = RunSequence([]string{x, other}, opts)
 	case 3:
-		err = writeLinkEvent(dir, opts, "unlink", x, other)
+		err = RunSequence([]string{"rm", other, x}, opts)
 	case 4:
-		err = writeResultEvent(dir, opts, x, zzString("summary"), zzString("resultpath"))
+		err = applySetUpdates(dir, opts, x, map[string]string{"result.path": zzString("resultpath"), "result.summary": zzString("summary")}, opts.AgentID, true)
 	}
 	zzReach("ran")
 	zzAssert(err != nil, "C09/pruned-id: command naming a pruned id fails")
